@@ -182,6 +182,13 @@ def make_signal(N, K):
         new.update_state = lambda force=False: None
         new.proposal = c01.StubProposal(ctx, dt, 1, tag0=200, specials=False, nonfinite_prior=False, nonzero=True)
         new.consume_sample()
+        # what update_state does at every iteration of the resumed run: the periodic checkpoint check
+        new.checkpoint_callback = lambda s: None
+        new.sampling_start_time = datetime.datetime.now()
+        try:
+            new.checkpoint(periodic=True)
+        except Exception as e:
+            ctx.fail("the resumed run cannot perform its periodic checkpoint check", f"{where}: {type(e).__name__}: {e}")
         dead_tags = [int(p["tag"]) for p in new.nested_samples]
         live_tags = [int(t) for t in new.live_points["tag"]]
         detail = where
